@@ -332,6 +332,78 @@ func genPrec(w *tr.W, r *rng.R, thorough bool) {
 	}
 }
 
+// operator grammars whose conflicting productions contain two or more different terminals: the handle of such a
+// production is its FIRST terminal (PrecedenceHandleForProduction), so declarations by the first terminal and by
+// the last terminal must behave differently.
+//
+//	ternary       E -> E q E c E | i                 (q = ?, c = :)
+//	dangling else S -> i c t S | i c t S e S | x     (i = if, t = then, e = else)
+//	mixfix        E -> E l E r E | i                 (l = [, r = ])
+//	two-token op  E -> E a b E | i
+type precFamily struct {
+	start   byte
+	prods   []string
+	decls   []string // terminal sets over which every declaration is enumerated
+	strings []string // sentences and near-sentences
+	n       int      // additionally: all strings up to this length
+}
+
+var precFamilies = []precFamily{
+	{'E', []string{"E:EqEcE", "E:i"}, []string{"q", "c", "qc"},
+		[]string{"iqiciqici", "iqiqicici", "iqiciqiciqici", "iqiqiciciqici", "iqiciqi", "iqiqici"}, 5},
+	{'S', []string{"S:ictS", "S:ictSeS", "S:x"}, []string{"ie", "te", "ite"},
+		[]string{"x", "ictx", "ictxex", "ictictxex", "ictictxexex", "ictxeictxex", "ictictictxexex", "ict", "ictxe", "xex", "ictxx", "ictictxexexex"}, 2},
+	{'E', []string{"E:ElErE", "E:i"}, []string{"l", "r", "lr"},
+		[]string{"iliri", "ililiriri", "ilirililiri"[:9], "iliriliri", "ilililiririri", "ilirilirilili"[:9], "ilir", "ilirr"}, 5},
+	{'E', []string{"E:EabE", "E:i"}, []string{"a", "b", "ab"},
+		[]string{"iabi", "iabiabi", "iabiabiabi", "iab", "iaabi", "iabbi"}, 5},
+}
+
+func genPrecFamilies(w *tr.W, r *rng.R, thorough bool) {
+	count := r.Intn(4)
+	for _, f := range precFamilies {
+		base := mk(f.start, f.prods...)
+		for _, set := range f.decls {
+			decls := precAssignments(set)
+			if !thorough && len(decls) > 60 {
+				// the 219 declarations over three terminals: a seeded third of them in the quick tier
+				var keep []string
+				for _, d := range decls {
+					if r.Intn(3) == 0 {
+						keep = append(keep, d)
+					}
+				}
+				decls = keep
+			}
+			for _, d := range decls {
+				g := mk(f.start, f.prods...)
+				g.prec = d
+				opl := []string{"B slr"}
+				if thorough || count%4 == 0 {
+					opl = append(opl, "B lalr", "B clr")
+				}
+				count++
+				seen := map[string]bool{}
+				allStrings(base.terms, f.n, func(s string) {
+					seen[s] = true
+					if s == "" {
+						opl = append(opl, "W")
+					} else {
+						opl = append(opl, "W "+s)
+					}
+				})
+				for _, s := range f.strings {
+					if !seen[s] {
+						seen[s] = true
+						opl = append(opl, "W "+s)
+					}
+				}
+				runCase(w, g, opl)
+			}
+		}
+	}
+}
+
 // random expression with the given number of operators (length 2k+1 <= 7, at most one parenthesised group)
 func randExpr(r *rng.R, ops string, k int) string {
 	var b []byte
